@@ -5,7 +5,7 @@ schema's case split is a mismatch; a primitive without a transfer function makes
 (listed, never a violation)."""
 import re
 from .core import Result, AnchorMissing
-from .vgraph import (Poly, ZERO, ONE, Slice, Elem, RefTo, Tup, Adt, Cond, Gamma, Unknown, EMPTY, Inconclusive, strip_ref, decide)
+from .vgraph import (Poly, ZERO, ONE, Slice, Elem, RefTo, Tup, Adt, Cond, Gamma, Unknown, EMPTY, Inconclusive, strip_ref, decide, saturate)
 
 
 class Path:
@@ -93,8 +93,12 @@ class Eval:
                 if op == "MulWithOverflow": return Tup([a * b, Cond("atom", atom="lang_ovf")])
                 if op in ("Eq", "Ne", "Lt", "Le", "Gt", "Ge"):
                     return Cond({"Eq": "==", "Ne": "!=", "Lt": "<", "Le": "<=", "Gt": ">", "Ge": ">="}[op], a - b)
-                if op == "Div": return Poly.atom("(%r)/(%r)" % (a, b))
-                if op == "Rem": return Poly.atom("(%r)%%(%r)" % (a, b))
+                if op in ("Div", "Rem"):
+                    qr = divmod_sym(P.conds, a, b)
+                    if qr is not None:
+                        return qr[0] if op == "Div" else qr[1]
+                    if op == "Div": return Poly.atom("(%r)/(%r)" % (a, b))
+                    return Poly.atom("(%r)%%(%r)" % (a, b))
             raise Inconclusive("binop %s on %r,%r" % (op, a, b))
         if k == "unop":
             a = s.operand(P, r["o"])
@@ -156,7 +160,7 @@ class Eval:
         raise Inconclusive("call " + path)
     def run(s):
         b = s.b
-        P = Path({}, {}, [], [])
+        P = Path({}, {}, list(getattr(s, "initial_conds", [])), [])
         selfty = b["locals"][1]
         if selfty.startswith("&"):
             P.mem["self"] = list(s.selfdesc); P.env[1] = RefTo("self", [])
@@ -166,11 +170,25 @@ class Eval:
         if b["arg_count"] >= 2: P.env[2] = Poly.atom("n")
         s.step(P, 0, 0)
         return s.results
-    def step(s, P, bb, depth):
+    def step(s, P, bb, depth, start=0):
         if depth > 200: raise Inconclusive("loop")
         bl = s.b["blocks"][bb]
-        for st in bl["stmts"]:
+        for si in range(start, len(bl["stmts"])):
+            st = bl["stmts"][si]
             if st["k"] != "assign": continue
+            rv = st["rv"]
+            if rv["k"] == "cast" and rv["ty"] in ("usize", "u64", "u32", "isize") :
+                v0 = s.operand(P, rv["o"])
+                if isinstance(v0, Cond):
+                    # bool -> integer: fork on the condition
+                    for cond, val in ((v0, ONE), (v0.neg(), ZERO)):
+                        dec = decide(P.conds, cond)
+                        if dec is False: continue
+                        Q = P.fork()
+                        if dec is None: Q.conds.append(cond)
+                        s.write(Q, st["p"], val)
+                        s.step(Q, bb, depth + 1, si + 1)
+                    return
             v = s.rvalue(P, st["rv"], st["p"])
             s.write(P, st["p"], v)
         t = bl["term"]; k = t["k"]
@@ -182,6 +200,18 @@ class Eval:
         if k == "assert": return s.step(P, t["target"], depth + 1)    # language overflow asserts: success edge
         if k == "drop": return s.step(P, t["target"], depth + 1)
         if k == "call":
+            fnr = t["func"].get("fn") or {}
+            if fnr.get("name") == "from" and t["args"] and (fnr.get("args") or [""])[-1] == "bool":
+                v0 = s.operand(P, t["args"][0])
+                if isinstance(v0, Cond):
+                    for cond, val in ((v0, ONE), (v0.neg(), ZERO)):
+                        dec = decide(P.conds, cond)
+                        if dec is False: continue
+                        Q = P.fork()
+                        if dec is None: Q.conds.append(cond)
+                        s.write(Q, t["dest"], val)
+                        s.step(Q, t["target"], depth + 1)
+                    return
             v = s.call(P, t); s.write(P, t["dest"], v)
             return s.step(P, t["target"], depth + 1)
         if k == "switch":
@@ -298,6 +328,27 @@ def check(facts, typ, W, selfdesc, Kval):
 
 
 
+def divmod_sym(conds, a, b):
+    """(q, r) with a == q*b + r and 0 <= r < b provable from the path facts, for a few candidate quotients
+    (polynomial part of a that is a multiple of b); None when nothing is provable"""
+    if b.is_const() and b.cval() == 1:
+        return a, ZERO
+    cands = [ZERO, ONE]
+    # candidate quotients: for every atom x, the cofactor q with a = q*b + rest (try x-multiples of b)
+    atoms = sorted({x for mono in a.t for x in mono})
+    for x in atoms:
+        X = Poly.atom(x)
+        cands += [X, X - ONE, X + ONE]
+    for q in cands:
+        r = a - q * b
+        if decide(conds, Cond(">=", r)) is True and decide(conds, Cond("<", r - b)) is True:
+            return q, r
+        sat = saturate(conds)
+        if decide(sat, Cond(">=", r)) is True and decide(sat, Cond("<", r - b)) is True:
+            return q, r
+    return None
+
+
 def _div(a, b): return Poly.atom("(%r)/(%r)" % (a, b))
 def _rem(a, b): return Poly.atom("(%r)%%(%r)" % (a, b))
 
@@ -306,6 +357,43 @@ def size_hint_schema(W, Kv, rows):
     den = W + Kv
     n = _div(L, den) + (_div(_rem(L, den), W) if rows else _rem(L, den))
     return n
+
+
+def size_hint_semantic(b, desc, W, names):
+    """size_hint decided semantically: substitute the cursor invariant for the slice length and require the result
+    to be the number of remaining items in every case.  Cases: empty (L = 0); non-empty with gap K = 0
+    (L = m*W); non-empty with K > 0 (L = (m-1)*(W+K) + W); rows additionally W = 0 (then m = 0, L = 0)."""
+    Mm = Poly.atom("m")
+    bad = []
+    npaths = 0
+    cases = []
+    base = [Cond(">=", K), Cond(">=", Mm - ONE)]
+    if W is C:
+        base.append(Cond(">", C))
+        cases.append(("zero-width rows (cols = 0, L = 0)", ZERO, [Cond("==", C), Cond(">=", K)], ZERO, {}))
+    cases.append(("an exhausted cursor (L = 0)", ZERO, base, ZERO, {}))
+    cases.append(("m items left and no gap (K = 0, L = m*W)", Mm * W, base + [Cond("==", K), Cond(">", Mm * W)], Mm, {"K": 0}))
+    Lk = (Mm - ONE) * (W + K) + W
+    cases.append(("m items left and a gap K > 0 (L = (m-1)*(W+K)+W)", Lk, base + [Cond(">", K), Cond(">", Lk)], Mm, {}))
+    for name, Lval, conds, want, subst in cases:
+        d2 = []
+        for x in desc:
+            if isinstance(x, Slice):
+                d2.append(Slice(ZERO, Lval))
+            elif isinstance(x, Poly) and subst.get("K") == 0 and x == K:
+                d2.append(ZERO)
+            else:
+                d2.append(x)
+        ev = Eval(b.d, d2)
+        ev.initial_conds = list(conds)
+        res = ev.run()
+        for pc, actions, ret, final in res:
+            npaths += 1
+            got = repr(ret)
+            expr = "(%r, Some(%r))" % (want, want)
+            if got != expr:
+                bad.append((name, pc, got, expr))
+    return bad, npaths
 
 
 def cursor_layout(f, typ):
@@ -342,21 +430,10 @@ def r_cursor(f):
             if m == "size_hint":
                 nfun += 1
                 try:
-                    res = Eval(b.d, desc).run()
-                    want = size_hint_schema(W, K, W is C)
-                    bad = []
-                    for conds, actions, ret, final in res:
-                        exp = want
-                        # rows: cols == 0 -> (0, Some(0))
-                        if W is C and decide(conds, Cond("==", C)) is True:
-                            exp = ZERO
-                        got = repr(ret)
-                        expr = "(%r, Some(%r))" % (exp, exp)
-                        if got != expr:
-                            bad.append((conds, got, expr))
-                    R.inst(b.ident, "size_hint equals the ideal remaining count %r on %d paths" % (want, len(res)), not bad)
-                    for conds, got, expr in bad:
-                        R.fail(b.ident, "size_hint:%s" % got, "%s: size_hint is %s on the path %s, the ideal strided cursor has %s" % (b.ident, got, conds, expr), b.where())
+                    bad, npaths = size_hint_semantic(b, desc, W, names)
+                    R.inst(b.ident, "size_hint equals the number of remaining items m on all %d paths, for L = 0 and L = (m-1)*(W+K)+W with K = 0 and K > 0 (cursor invariant)" % npaths, not bad)
+                    for case, conds, got, exp in bad:
+                        R.fail(b.ident, "size_hint[%s]:%s" % (case, got), "%s: with %s the remaining-item count is %s but size_hint returns %s" % (b.ident, case, exp, got), b.where())
                 except Inconclusive as e:
                     ninc += 1
                     R.inconc(b.ident, "engine inconclusive: %s" % e)
